@@ -8,7 +8,7 @@ use ndarray::Array2;
 use rateslib::dual::{Dual, Dual2, Gradient1, Gradient2, Vars};
 use statrs::distribution::{ContinuousCDF, Normal};
 
-pub const N: usize = 8;
+pub const N: usize = 6;
 
 #[derive(Clone, Copy, Debug)]
 pub struct Comp {
